@@ -222,6 +222,11 @@ class G(object):
                 i = r.randrange(len(starts))
                 j = r.randrange(i, len(starts))
                 row['cline'] = [starts[i][0], starts[j][1]]
+                if j + 2 <= len(starts) - 1 and r.random() < 0.5:
+                    # a second partial rule on the same boundary, further right (a column between the two stays without rule)
+                    i2 = r.randrange(j + 2, len(starts))
+                    j2 = r.randrange(i2, len(starts))
+                    row['cline2'] = [starts[i2][0], starts[j2][1]]
             rows.append(row)
             if self.o.get('blank_rows') and r.random() < self.o['blank_rows']:
                 # a row without any text or rule (plasTeX drops such rows by design; "r non-empty rows yield r rows")
@@ -392,6 +397,8 @@ ADV_POOL = [
     ('M\u212a\u2126\ufa19e\u0301', 'M\u212a\u2126\ufa19e\u0301'), ('\u0338M\u0338', '\u0338M\u0338'),
     # Unicode's line and paragraph separators and an ideographic space inside a word: text, not line structure
     ('M\u2028a\u2029b\u3000c', 'M\u2028a\u2029b\u3000c'),
+    # text that looks like an (empty) attribute: it is not one
+    ('M<a href="">', 'M<a href="">'), ('M id="" class=""', 'M id="" class=""'),
 ]
 ADV_ON = [True]
 
@@ -474,7 +481,11 @@ def p_blocks(blocks, ind=''):
         elif t == 'equation':
             env = 'equation*' if b['star'] else 'equation'
             lab = '\\label{%s}' % b['label'] if b.get('label') else ''
-            out.append('\\begin{%s}%s %s \\end{%s}\n' % (env, lab, ' = '.join(b['words']), env))
+            if lab and _spaced(b['label']):
+                # the label at the end, after a starred spacing command (which is no labelable object)
+                out.append('\\begin{%s} %s \\hspace*{1em}%s \\end{%s}\n' % (env, ' = '.join(b['words']), lab, env))
+            else:
+                out.append('\\begin{%s}%s %s \\end{%s}\n' % (env, lab, ' = '.join(b['words']), env))
         elif t == 'eqnarray':
             rows = []
             for row in b['rows']:
@@ -569,7 +580,7 @@ def p_tabular(b):
         if row['hline']:
             s += '\\hline\n'
         elif row.get('cline'):
-            s += '\\cline{%d-%d}\n' % tuple(row['cline'])
+            s += '\\cline{%d-%d}' % tuple(row['cline']) + ('\\cline{%d-%d}' % tuple(row['cline2']) if row.get('cline2') else '') + '\n'
         if row.get('blank'):
             s += (' \\\\\n' if row['blank'] != 'cells' else ' & ' * (len(b['aligns']) - 1) + ' \\\\\n')
             continue
@@ -579,11 +590,16 @@ def p_tabular(b):
     return s + '\\end{tabular}\n'
 
 
+def _spaced(label):
+    """a third of the labels (chosen by the label's text) stand behind a starred spacing command"""
+    return sum(map(ord, label)) % 3 == 0
+
+
 def p_sec(s):
     name = SEC_NAMES[s['level']]
     out = '\\%s%s%s{%s}' % (name, '*' if s['star'] else '', ('[%s]' % p_inlines(s['toc'])) if s.get('toc') else '', p_inlines(s['title']))
     if s.get('label') and s.get('late_label'):
-        out += '\n' + p_inlines(s['c'][0]['c']) + '\\label{%s}\n' % s['label'] + (SEP[0] if len(s['c']) > 1 else '') + p_blocks(s['c'][1:])
+        out += '\n' + p_inlines(s['c'][0]['c']) + ('\\vspace*{2mm}' if _spaced(s['label']) else '') + '\\label{%s}\n' % s['label'] + (SEP[0] if len(s['c']) > 1 else '') + p_blocks(s['c'][1:])
     else:
         if s.get('label'):
             out += '\\label{%s}' % s['label']
